@@ -429,6 +429,12 @@ class Render:
         ps = ", ".join(f"{n}: {self.params[n]}" for n in sorted(self.params, key=prio))
         kws = ", ".join(f"{k}=True" for k in case["fkw"])
         dec = f"@guppy({kws})" if kws else "@guppy"
+        warm = ""
+        # every other flagged case applies one decorator object twice (`d = guppy(control=True)`): the flags
+        # belong to each function it decorates, not only to the first one
+        if kws and (len(lines) + len(self.header)) % 2 == 0:
+            warm = f"dec_shared = guppy({kws})\n\n@dec_shared\ndef warm_(wq: qubit) -> None:\n    pass\n"
+            dec = "@dec_shared"
         imports = ""
         if self.need_callable:
             imports += "from collections.abc import Callable\n"
@@ -443,7 +449,7 @@ class Render:
         for k in sorted(self.deep):
             struct += f"@guppy.struct\nclass {DEEP_STRUCTS[k][0]}:\n{DEEP_STRUCTS[k][1]}\n"
         return (runner.PRELUDE + imports + "\n" + struct + "\n".join(self.header)
-                + f"\n{dec}\ndef main({ps}) -> {rty}:\n" + "\n".join(lines) + "\n")
+                + "\n" + warm + f"\n{dec}\ndef main({ps}) -> {rty}:\n" + "\n".join(lines) + "\n")
 
 
 def render(case):
